@@ -13,9 +13,17 @@ use serde_json::json;
 
 /// Start positions: native words consumed before the exploration begins (+ pending half).
 pub fn start_prefixes(info: &TypeInfo) -> Vec<(usize, bool)> {
+    start_prefixes_ext(info, false)
+}
+
+/// `deep` adds, for the non-buffered generators, start positions around call counts 2^8 and 2^16.
+pub fn start_prefixes_ext(info: &TypeInfo, deep: bool) -> Vec<(usize, bool)> {
     let mut v: Vec<(usize, bool)> = match info.block_words {
         Some(b) => vec![0, 1, b / 2, b - 2, b - 1, b, b + 1].into_iter().map(|w| (w, false)).collect(),
-        None => vec![(0, false), (1, false), (3, false)],
+        // non-buffered generators: fresh, a few calls in, and around call counts 2^8 and 2^16 (per-object
+        // counters)
+        None if info.family == Family::Jitter || !deep => vec![(0, false), (1, false), (3, false)],
+        None => vec![(0, false), (1, false), (3, false), (254, false), (255, false), (256, false), (65534, false), (65535, false), (65536, false)],
     };
     if matches!(info.family, Family::Isaac64 | Family::Jitter) {
         let with_half: Vec<(usize, bool)> = v.iter().map(|&(w, _)| (w, true)).collect();
@@ -36,14 +44,14 @@ pub fn prefix_ops(info: &TypeInfo, words: usize, half: bool) -> Vec<Op> {
 pub fn explore_maker(mk: &dyn Maker, depth: usize, ctx: &Ctx, prop: &str, alphabet: &[Op], stream_words: usize) -> Stats {
     let info = mk.info();
     let native = histories::native_stream(mk, stream_words);
-    let own = if info.u32_proj == 'm' { Some(histories::own_u32_stream(mk, stream_words.min(120))) } else { None };
+    let own = if info.u32_proj == 'm' { Some(histories::own_u32_stream(mk, stream_words)) } else { None };
     let stream = Stream { info, native: &native, own_u32: own.as_deref() };
     let future = info.block_words.unwrap_or(2) + 2;
     let mut stats = Stats::default();
-    for (w, half) in start_prefixes(info) {
+    for (w, half) in start_prefixes_ext(info, true) {
         let prefix = prefix_ops(info, w, half);
         let start = Pos { words: (w + half as usize) as u64, half };
-        if own.is_some() && start.words as usize + depth * 3 + future + 4 > 120 {
+        if own.is_some() && start.words as usize + future + 4 > stream_words {
             continue;
         }
         let mut out = Vec::new();
@@ -94,21 +102,22 @@ pub fn run(reg: &dyn Registry, ctx: &Ctx) -> Outcome {
     for s in &results {
         add(&mut total, s);
     }
-    // deep stream positions (thorough): the same exploration started 1000 and 65536 blocks in
-    if ctx.tier == crate::evidence::Tier::Thorough {
+    // deep stream positions: the same exploration started 1000 (and, thorough, 65536) blocks in
+    {
+        let thorough = ctx.tier == crate::evidence::Tier::Thorough;
         let deep: Vec<Stats> = types
             .par_iter()
             .filter(|t| t.info().block_words.is_some())
             .flat_map(|ty| {
                 let info = ty.info();
                 let bb = info.block_words.unwrap() * info.word_bits / 8;
-                [1000usize, 65536]
+                (if thorough { vec![1000usize, 65536] } else { vec![1000usize] })
                     .iter()
                     .map(|&blocks| {
                         let mk = DeepMaker { ty: *ty, seed: standard_seeds(*ty, ctx.seed)[1].clone(), skip_bytes: blocks * bb };
                         let alphabet = histories::output_alphabet(info);
                         let maxw = alphabet.iter().map(|o| match o { Op::Fill(n) => (*n + 3) / (info.word_bits / 8), _ => 2 }).max().unwrap();
-                        let d = 3;
+                        let d = 2; // every rebuild replays the skip
                         let words = info.block_words.unwrap() + 2 + d * (maxw + 1) + info.block_words.unwrap() + 16;
                         explore_maker(&mk, d, ctx, "C05", &alphabet, words)
                     })
@@ -119,6 +128,48 @@ pub fn run(reg: &dyn Registry, ctx: &Ctx) -> Outcome {
             add(&mut total, s);
         }
         ctx.set("deep_start_explorations", deep.len() as u64);
+    }
+    // rare reachable events (found on the reference model): explorations (depth 2) started 1 and 0 words before
+    // the word that completes the pattern, so that every call shape meets the special word
+    {
+        let thorough = ctx.tier == crate::evidence::Tier::Thorough;
+        let mut jobs: Vec<SkipMaker> = Vec::new();
+        for (ty, evs) in rare_events(reg, ctx.seed, thorough) {
+            // two events per pattern (every rebuild replays the skip)
+            let mut seen: std::collections::HashMap<&'static str, usize> = std::collections::HashMap::new();
+            for e in evs {
+                let c = seen.entry(e.what).or_insert(0);
+                *c += 1;
+                if *c > 2 {
+                    continue;
+                }
+                for back in [1u64, 0] {
+                    if e.word_index >= back {
+                        jobs.push(SkipMaker { ty, seed: e.seed.clone(), skip_words: e.word_index - back });
+                    }
+                }
+            }
+        }
+        let res: Vec<Stats> = jobs
+            .par_iter()
+            .map(|mk| {
+                let info = mk.info();
+                let alphabet = vec![Op::U32, Op::U64, Op::Fill(1), Op::Fill(3), Op::Fill(4), Op::Fill(5), Op::Fill(8), Op::Fill(9)];
+                let native = histories::native_stream(mk, 40 + info.block_words.unwrap_or(2));
+                let stream = Stream { info, native: &native, own_u32: None };
+                let mut stats = Stats::default();
+                let mut out = Vec::new();
+                histories::explore(mk, &stream, &[], Pos::start(), &alphabet, 2, 6, &mut stats, &mut out);
+                for v in out {
+                    ctx.violation(&format!("C05:{}", v.key), &format!("{} [start: {}]", v.what, mk.describe()), v.replay);
+                }
+                stats
+            })
+            .collect();
+        ctx.set("rare_event_explorations", res.len() as u64);
+        for s in &res {
+            add(&mut total, s);
+        }
     }
     // JitterRng with scripted non-stuck timers, rounds 1, 2, 3
     for rounds in [1u8, 2, 3] {
@@ -137,8 +188,10 @@ pub fn run(reg: &dyn Registry, ctx: &Ctx) -> Outcome {
         let d = depth.min(3);
         let words = 4 + d * 3 + 8;
         let readings = jitter_env::benign_readings(ctx.seed ^ 0x05CC ^ rounds as u64, rounds, words, 8);
-        for &target in jitter_env::SPECIAL_WORDS.iter() {
-            if let Some(p) = jitter_env::solve_pool_for_first_output(reg, &readings, rounds, target) {
+        let mut pools: Vec<u64> = jitter_env::SPECIAL_WORDS.iter().filter_map(|&t| jitter_env::solve_pool_for_first_output(reg, &readings, rounds, t)).collect();
+        pools.extend(jitter_env::two_word_relations().iter().filter_map(|(_, eqs)| jitter_env::solve_pool_for_relation(reg, &readings, rounds, eqs)));
+        for p in pools {
+            {
                 let mk = JitterMaker { reg, readings: readings.clone(), rounds, init_pool: Some(p) };
                 let alphabet = vec![Op::U32, Op::U64, Op::Fill(3), Op::Fill(4), Op::Fill(8), Op::Fill(9)];
                 let s = explore_maker(&mk, d, ctx, "C05", &alphabet, words);
